@@ -70,6 +70,16 @@ func (c16Prop) Generate(seed uint64, idx int, tier string) *Plan {
 		for i := 0; i < n; i++ {
 			pl.Ops = append(pl.Ops, r.PickInt([]int{0, 1, 5, 40, 300, 5000}))
 		}
+		if r.P(1, 10) {
+			// blocks far larger than any chunk a writer might split them into
+			if len(pl.Ops) > 3 {
+				pl.Ops = pl.Ops[:3]
+			}
+			if len(pl.Ops) == 0 {
+				pl.Ops = []int{0}
+			}
+			pl.Ops[r.Intn(len(pl.Ops))] = r.PickInt([]int{1<<20 + 7, 2<<20 + 512*1024, 3 << 20})
+		}
 	} else {
 		pl.API = "encoder"
 		pl.Type = r.Pick(typeNames(func(d *TypeDesc) bool { return !d.RefOnly && !d.HasMultiMap }))
@@ -158,8 +168,18 @@ func c16Run(pl *C16Plan, w *DiskWriter) (calls []c16Call, panicked any, site str
 		}
 		for _, op := range pl.Ops {
 			blk := make([]byte, op)
-			for i := range blk {
-				blk[i] = byte(r.Intn(7)) // compressible
+			if op > 1<<16 {
+				x := uint64(op)
+				for i := range blk {
+					if i%8 == 0 {
+						x = splitmix(x)
+					}
+					blk[i] = byte(x >> (uint(i%8) * 8)) // incompressible: stays large after compression
+				}
+			} else {
+				for i := range blk {
+					blk[i] = byte(r.Intn(7)) // compressible
+				}
 			}
 			if !rec("block", func() error { return fw.WriteBlock(w, op%7, blk) }) {
 				return
